@@ -116,6 +116,7 @@ func main() {
 	nSecure := flag.Int("secure", 300, "random clone.Secure cases")
 	nPlans := flag.Int("plans", 12, "plans (each gives 10 clone cases and 1 render case)")
 	nReg := flag.Int("reg", 150, "registry cases")
+	nConc := flag.Int("conc", 40, "concurrent first-use pairs on fresh types")
 	nChains := flag.Int("chains", 80, "clone.Secure cases with a chain of 4..8 constructors above a secure leaf")
 	maxDepth := flag.Int("depth", 5, "max nesting depth of generated types")
 	out := flag.String("out", "-", "output file (JSONL)")
@@ -128,6 +129,9 @@ func main() {
 	}
 	defer w.Close()
 	root := core.NewRand(core.Seed())
+
+	// ---- (0) two goroutines scrubbing values of never-used-before types at the same instant (must come first)
+	concurrentCases(w, root.Fork(9000000), *nConc)
 
 	// ---- (i) clone.Secure: bounded-exhaustive pairs of constructors above every kind of secure leaf
 	ctors := []K{KStruct, KPtr, KSlice, KMap, KIface, KArray}
